@@ -431,6 +431,9 @@ func genC20b(g *Gen, seed, index uint64) *Plan {
 		} else {
 			tr.Corrupt = g.Pick("bitflip", "bitflip", "byte", "truncate", "truncate", "prefix", "suffix", "empty")
 		}
+		if spec.Target == "index" && tr.Corrupt == "truncate" {
+			tr.Pos = int(index / 4) // consecutive plans sweep every cut position of the (short) index file
+		}
 		spec.Transit = tr
 	}
 	p.Net = spec
